@@ -558,4 +558,102 @@ theorem ufunc2_clipped_runtime_counterexample :
     ∃ o, transferUfunc2 ⟨.clipped [2, 3], .atMost 6⟩ ⟨.fixedDim 2, .any⟩ = some o ∧ ¬ o.γ [3, 2] := by
   refine ⟨by decide, by decide, by decide, ⟨.clipped [2, 3], .atMost 6⟩, by decide, by decide⟩
 
+/-! ### concatenate (decorator default: sizes are the sums of the operands' sizes) -/
+
+/-- admitted run-time value of the axis argument of concatenate -/
+def concatAxisOk : AxisK → Option Nat → Prop
+  | .none, v => v = none
+  | .cts x, v => v = some x
+  | .rts, v => v ≠ none
+  | _, _ => False
+
+theorem concatLen_sound {la lb : LenK} {n : Nat} {t : Shape} (ha : la.γ n) (hb : lb.γ n) (ht : t.length = n) :
+    (concatLen la lb).γ t := by
+  cases la <;> cases lb <;> simp only [concatLen, ShapeK.γ, LenK.γ] at * <;> omega
+
+theorem concatFallback_sound {i j : SInfo} {a b t : Shape} {k : AxisK} {axis : Option Nat}
+    (hi : i.γ a) (hj : j.γ b) (hk : concatAxisOk k axis) (hr : refConcat axis a b = some t) :
+    (concatFallback k i j).γ t := by
+  obtain ⟨hprod, hnone, hsome⟩ := refConcat_spec hr
+  have hLa := lenK_sound hi.1
+  have hLb := lenK_sound hj.1
+  cases k with
+  | none =>
+    simp only [concatAxisOk] at hk; subst hk
+    simp only [refConcat, Option.some.injEq] at hr; subst hr
+    have h1 := hi.2; have h2 := hj.2
+    simp only [concatFallback]
+    cases hx : i.size <;> cases hy : j.size <;> simp only [hx, hy, SizeK.γ, concatFlat, ShapeK.γ] at h1 h2 ⊢ <;> simp [*]
+  | cts x =>
+    simp only [concatAxisOk] at hk; subst hk
+    obtain ⟨h1, h2⟩ := hsome (by simp)
+    exact concatLen_sound (n := t.length) (by rw [h1]; exact hLa) (by rw [h2]; exact hLb) rfl
+  | rts =>
+    simp only [concatAxisOk] at hk
+    obtain ⟨h1, h2⟩ := hsome hk
+    exact concatLen_sound (n := t.length) (by rw [h1]; exact hLa) (by rw [h2]; exact hLb) rfl
+  | ctt c => simp [concatAxisOk] at hk
+  | rt n => simp [concatAxisOk] at hk
+
+theorem staticAxis?_eq {k : AxisK} {axis ax : Option Nat} (hk : concatAxisOk k axis) (hs : k.staticAxis? = some ax) : ax = axis := by
+  cases k <;> simp only [concatAxisOk, AxisK.staticAxis?, Option.some.injEq] at hk hs
+  · subst hk hs; rfl
+  · subst hk hs; rfl
+  all_goals simp at hs
+
+theorem const_of_isConst {A : ShapeK} {a va : Shape} (hA : A.γ a) (hc : A.cvalue = some va) (hi : A.isConst = true) : a = va := by
+  cases A <;> simp [ShapeK.isConst] at hi
+  simp only [ShapeK.cvalue, Option.some.injEq] at hc; subst hc; exact hA
+
+theorem concatShapeK_sound {i j : SInfo} {d : ShapeK} {a b t : Shape} {k : AxisK} {axis : Option Nat}
+    (hi : i.γ a) (hj : j.γ b) (hk : concatAxisOk k axis) (hr : refConcat axis a b = some t)
+    (hd : concatShapeK k i j = some d) : d.γ t := by
+  unfold concatShapeK at hd
+  split at hd
+  · rename_i va vb ax hca hcb hax
+    have hlea := cvalue_leAll hi.1 hca
+    have hleb := cvalue_leAll hj.1 hcb
+    have hax' := staticAxis?_eq hk hax
+    subst hax'
+    simp only [Option.map_eq_some_iff] at hd
+    obtain ⟨r, hrv, rfl⟩ := hd
+    split
+    · rename_i hcc
+      simp only [Bool.and_eq_true] at hcc
+      have ha := const_of_isConst hi.1 hca hcc.1
+      have hb := const_of_isConst hj.1 hcb hcc.2
+      subst ha hb
+      rw [hr] at hrv; simp only [Option.some.injEq] at hrv; subst hrv; rfl
+    · exact leAll_bump (refConcat_leAll hlea hleb hr hrv)
+  · simp only [Option.some.injEq] at hd; subst hd
+    exact concatFallback_sound hi hj hk hr
+
+theorem concat_static_sound {i j o : SInfo} {a b t : Shape} {k : AxisK} {axis : Option Nat}
+    (hi : i.γ a) (hj : j.γ b) (hk : concatAxisOk k axis) (hr : refConcat axis a b = some t)
+    (ho : transferConcat k i j = some o) : o.γ t := by
+  have hprod := (refConcat_spec hr).1
+  have hsum : (sumSizeK i.size j.size).γ (prod t) := by
+    have h1 := hi.2; have h2 := hj.2
+    rw [hprod]
+    cases hx : i.size <;> cases hy : j.size <;> simp only [hx, hy, SizeK.γ, sumSizeK] at h1 h2 ⊢ <;> omega
+  have key : ∀ d, concatShapeK k i.seen j.seen = some d → (concatInfo i.size j.size d).γ t := by
+    intro d hd
+    have hdγ := concatShapeK_sound (seen_sound hi) (seen_sound hj) hk hr hd
+    refine ⟨hdγ, ?_⟩
+    cases d with
+    | const l => simp only [ShapeK.γ] at hdγ; subst hdγ; simp [concatInfo, SizeK.γ]
+    | clipped m => exact hsum
+    | fixedDim n => exact hsum
+    | boundedDim n => exact hsum
+    | dyn => exact hsum
+  cases k with
+  | ctt c => simp [concatAxisOk] at hk
+  | rt n => simp [concatAxisOk] at hk
+  | none => simp only [transferConcat, Option.map_eq_some_iff] at ho; obtain ⟨d, hd, rfl⟩ := ho; exact key d hd
+  | cts x => simp only [transferConcat, Option.map_eq_some_iff] at ho; obtain ⟨d, hd, rfl⟩ := ho; exact key d hd
+  | rts => simp only [transferConcat, Option.map_eq_some_iff] at ho; obtain ⟨d, hd, rfl⟩ := ho; exact key d hd
+
+example : refConcat (some 0) [2, 3] [1, 3] = some [3, 3] := by decide
+example : transferConcat (.cts 0) ⟨.const [2, 3], .known 6⟩ ⟨.clipped [1, 3], .atMost 3⟩ = some ⟨.clipped [3, 3], .atMost 9⟩ := by decide
+
 end NmVerif.Props.C11
